@@ -18,6 +18,25 @@ NAMES = ['a', 'a b', '"q"', "it's", '{x}', '}}', 'a}} --> 9{{b', '<b>', '</scrip
          'in $styles x', '$src', '${styles}', '$gantt_data $columns', '$task_classes_def', '$today_marker $scale $root $readonly $row_height']
 
 
+class _Frames(HTMLParser):
+    def __init__(self):
+        super().__init__(convert_charrefs=True)
+        self.docs = []
+
+    def handle_starttag(self, tag, attrs):
+        if tag == 'iframe':
+            self.docs += [v for k, v in attrs if k == 'srcdoc' and v is not None]
+
+
+def srcdocs(markup):
+    """srcdoc attribute values of the iframes in a notebook representation, as an HTML consumer reads them (entities decoded;
+    attribute order, further attributes and the way of escaping are not fixed by the statement)."""
+    f = _Frames()
+    f.feed(markup)
+    f.close()
+    return f.docs
+
+
 class Doc(HTMLParser):
     """Minimal consumer model: text content of div.mermaid (tags dropped, entities decoded), raw script bodies."""
 
@@ -354,13 +373,9 @@ def _work(chunk):
                     pass  # edges carry ids only; verify() already compares them with the dependencies
                 elif ob != oa:
                     V(kind + '/other-entries-altered', f'entries of the other tasks differ from the rendering with name "x"')
-                exp_iframe = '<iframe srcdoc="' + html.escape(page) + '"'
-                if not iframe.startswith(exp_iframe):
-                    V(kind + '/notebook-not-escaped-document', '_repr_html_() is not the HTML-escaped document in an iframe srcdoc')
-                else:
-                    m = re.match(r'^<iframe srcdoc="([^"]*)"', iframe)
-                    if not m or html.unescape(m.group(1)) != page:
-                        V(kind + '/notebook-not-escaped-document', 'unescaping the srcdoc attribute does not give back to_html()')
+                if page not in srcdocs(iframe):
+                    V(kind + '/notebook-not-escaped-document', '_repr_html_() is not an iframe whose srcdoc attribute, read as an HTML '
+                      'consumer reads it (entities decoded), is the to_html() document')
                 if nm not in ('a', 'a b'):
                     acc.count('nontrivial')
         # a renderer object is reused after the WBS changed: its output is the one a fresh renderer gives
@@ -379,7 +394,7 @@ def _work(chunk):
                 acc.count('evaluations')
                 acc.count('rerender_after_change')
                 page2 = r.to_html()
-                if not r._repr_html_().startswith('<iframe srcdoc="' + html.escape(page2) + '"'):
+                if page2 not in srcdocs(r._repr_html_()):
                     acc.violation('C19', f'{cls.__name__}/notebook-stale-after-wbs-change/other', '_repr_html_() of a renderer shown before the '
                                   'WBS was edited is not the escaped current document', {'parents': list(par), 'links': [list(x) for x in links]})
                 if page2 != cls(wr).to_html():
